@@ -42,6 +42,10 @@ def default_config(scheme):
 # ---------------------------------------------------------------------------------------------------------
 # database specs
 # ---------------------------------------------------------------------------------------------------------
+HEADER_MAGICS = [b"\x93\x94Curtomola2006SSE2", b"\x93\x94Curtomola2006SSE1", b"\x93\x94Cash2014PiBas", b"\x93\x94Cash2014PiPack", b"\x93\x94Cash2014PiPtr",
+                 b"\x93\x94Cash2014Pi2Lev", b"\x93\x94Cash2014LocalityPi", b"\x93\x94Asharov2014Scheme3", b"\x93\x94Demertzis2017LocalityPi", b"\x93\x94"]
+
+
 def _enc_id(v, size, mode):
     return v.to_bytes(size, "big" if mode != "le" else "little")
 
@@ -81,6 +85,9 @@ def build_db(spec):
                     (b"\x80\x04\x95" * size)[:size], (b".\x94\x8c" * size)[:size], bytes([size % 256 or 1]) * size, b"\x10" * size,
                     (b"\x00\xff" * size)[:size], (b"\xff\x00" * size)[:size], (b"\n\r\t " * size)[:size], (b"\xef\xbb\xbf" * size)[:size],
                     b"\x7f" * size, (b"\x00\x00\x01\x00" * size)[:size]]
+            # the library's own format magics (SSE-2 keeps identifiers in the clear inside its serialized index)
+            pats += [(m + bytes([7]) * size)[:size] for m in HEADER_MAGICS if len(m) <= size]
+            pats += [(bytes([9]) * size + m)[-size:] for m in HEADER_MAGICS[:3] if len(m) < size]
             rot = (spec.get("id_seed", 0) + 3 * j) % len(pats)
             for cand in pats[rot:] + pats[:rot]:
                 if len(ids) < n and any(cand) and cand not in seen:
@@ -166,6 +173,8 @@ def st_keywords(draw, count, limit):
         for b in (b"\x80\x04\x95", b".", b"\x10" * min(limit, 16), b"a\x00b", b"a\x00", b"\xff", b"\xff\xff", b"\x01", b"\x01\x00",
                   b"1", b"2", b"\x01\x01", b"a|b", b"a,b", b"[]", b"\xef\xbb\xbfkw"):
             add(b[:limit])
+        for m in HEADER_MAGICS:
+            add(m[:limit])
     elif fam == "long":
         # longer than one block of the hash functions behind the PRFs (64 bytes), and exactly at / around it
         for n in (65, 64, 63, 100, 128):
@@ -231,8 +240,8 @@ def absent_keywords(db_kws, limit, extra):
     out = []
     seen = set(db_kws)
 
-    def add(b, tag):
-        if _valid_kw(b, limit) and b not in seen:
+    def add(b, tag, unbounded=False):
+        if _valid_kw(b, max(limit, len(b)) if unbounded else limit) and b not in seen:
             seen.add(b)
             out.append((b, tag))
 
@@ -254,6 +263,10 @@ def absent_keywords(db_kws, limit, extra):
         if len(w) > 1 and w[0] in (1, 2, 3, 0x31, 0x32):
             add(w[1:], "separator_prefix_removed")
     add(b"\xff" * limit if limit <= 64 else b"\xff" * 40, "maxlen")
+    if limit >= 100:
+        # schemes without a keyword-length limit: keywords around 2**16 bytes (where a 2-byte length field would end)
+        for n in (65535, 65536, 70001):
+            add((b"long-keyword-" * (n // 13 + 1))[:n], "very_long_keyword", unbounded=True)
     if limit <= 64:
         # the top of the keyword space (maximum length, value 2^(8L) - 1 - s for small s): where code that needs "unused" inputs
         # for padding entries takes them from
